@@ -263,7 +263,7 @@ func runJob(j job) string {
 	case "X":
 		return boxPipeline(j.data)
 	}
-	return "badjob"
+	return runJob3(j)
 }
 
 // cmdWorker: lines "<kind> <cfg> <hex>" -> "<result>"; "STAT" -> worst time/alloc seen
